@@ -26,7 +26,7 @@ from hypothesis import strategies as st
 
 from harness import hyp
 from harness import ref_memory as RM
-from harness.bus import Bus, NonTermination
+from harness.bus import Bus, NonTermination, run_interleaved
 from harness.model_devmem import Bank, DevMemModel, MemGear, make_drift
 from harness.runner import Result, library_frame
 
@@ -418,33 +418,67 @@ def _unit_checks(w, out, where, returned, latch_requested=False):
             out.append(("C09:read_all-unlatch-failed", "%s: the lock byte is left at 0xAA (bank latched)" % where))
 
 
-def case_value(case):
+class Job:
+    """One read sequence prepared against its own world (units + bus); judged once its outcome is known."""
+
+    def __init__(self, kind, case, w, bus, seq, where, **kw):
+        self.kind, self.case, self.w, self.bus, self.seq, self.where = kind, case, w, bus, seq, where
+        self.__dict__.update(kw)
+
+
+def run_alone(job):
+    """-> ("returned", value) | ("raised", exception): the job's sequence run to its end on its own bus"""
+    try:
+        return ("returned", job.bus.run(job.seq()))
+    except Exception as e:  # noqa: classified by settle()
+        return ("raised", e)
+
+
+def settle(job, oc):
+    """Outcome of a finished sequence -> (outcome class, value, exception, violations that end the judgement)."""
+    exc = lib()["exc"]
+    if oc[0] == "returned":
+        return "returned", oc[1], None, None
+    e = oc[1]
+    if isinstance(e, exc.MemoryLocationNotImplemented):
+        return "not-implemented", None, e, None
+    if isinstance(e, exc.ResponseError):
+        return "response-error", None, e, None
+    if isinstance(e, NonTermination):
+        return None, None, e, [("C09:nontermination", "%s: more than %d commands" % (job.where, job.bus.max_commands))]
+    if library_frame(e.__traceback__) is None:
+        raise e
+    return None, None, e, [("C09:raised:%s@%s" % (type(e).__name__, library_frame(e.__traceback__)),
+                            "%s raised %r" % (job.where, e))]
+
+
+def prep_value(case):
     L = lib()
-    exc = L["exc"]
     row = all_rows()[case["key"]]
     cls = L["classes"].get(case["key"])
     if cls is None:
-        return []
-    name = row["cls"]
+        return None
     w = World(row["bankobj"], case["addr"], case["short"], case["image"], case["last"], case["holes"], case.get("lock"))
     fault = tuple(case["fault"]) if case.get("fault") else None
     bus = MemBus(w.units, fault=fault, max_commands=40 + 4 * row["width"], watch=w.target)
-    where = "read of " + _where(case)
+    return Job("value", case, w, bus, lambda: cls.read(make_addr(case["addr"], case["short"])),
+               "read of " + _where(case), row=row)
+
+
+def case_value(case):
+    job = prep_value(case)
+    if job is None:
+        return []
+    return judge_value(job, run_alone(job))
+
+
+def judge_value(job, oc):
+    case, w, bus, where, row = job.case, job.w, job.bus, job.where, job.row
+    name = row["cls"]
+    outcome, val, err, early = settle(job, oc)
+    if early:
+        return early
     out = []
-    outcome, val, err = None, None, None
-    try:
-        val = bus.run(cls.read(make_addr(case["addr"], case["short"])))
-        outcome = "returned"
-    except exc.MemoryLocationNotImplemented as e:
-        outcome, err = "not-implemented", e
-    except exc.ResponseError as e:
-        outcome, err = "response-error", e
-    except NonTermination:
-        return [("C09:nontermination", "%s: more than %d commands" % (where, bus.max_commands))]
-    except Exception as e:  # noqa
-        if library_frame(e.__traceback__) is None:
-            raise
-        return [("C09:raised:%s@%s" % (type(e).__name__, library_frame(e.__traceback__)), "%s raised %r" % (where, e))]
     # which location did the fault hit?
     silenced, garbled = set(), False
     if bus.injected:
@@ -485,14 +519,13 @@ def case_value(case):
 
 
 # --------------------------------------------------------------------- whole bank ----
-def case_bank(case):
+def prep_bank(case):
     L = lib()
-    exc = L["exc"]
     bankobj = case["bank"]
     spec = bankspec(bankobj)
     bank_obj = L["banks"].get(bankobj)
     if bank_obj is None:
-        return []
+        return None
     use_latch = case["use_latch"]
     holes = case["holes"]
     last = case["last"]
@@ -505,21 +538,27 @@ def case_bank(case):
     fault = tuple(case["fault"]) if case.get("fault") else None
     bus = MemBus(w.units, fault=fault, max_commands=300, watch=w.target)
     where = "read_all(use_latch=%s%s) of %s" % (use_latch, ", live memory drifting" if drift else "", _where(case))
+    return Job("bank", case, w, bus, lambda: bank_obj.read_all(make_addr(case["addr"], case["short"]), use_latch=use_latch),
+               where, latch_possible=latch_possible, drift=drift)
+
+
+def case_bank(case):
+    job = prep_bank(case)
+    if job is None:
+        return []
+    return judge_bank(job, run_alone(job))
+
+
+def judge_bank(job, oc):
+    L = lib()
+    case, w, bus, where = job.case, job.w, job.bus, job.where
+    latch_possible, drift = job.latch_possible, job.drift
+    spec = w.spec
+    use_latch = case["use_latch"]
+    outcome, val, err, early = settle(job, oc)
+    if early:
+        return early
     out = []
-    outcome, val, err = None, None, None
-    try:
-        val = bus.run(bank_obj.read_all(make_addr(case["addr"], case["short"]), use_latch=use_latch))
-        outcome = "returned"
-    except exc.MemoryLocationNotImplemented as e:
-        outcome, err = "not-implemented", e
-    except exc.ResponseError as e:
-        outcome, err = "response-error", e
-    except NonTermination:
-        return [("C09:nontermination", "%s: more than %d commands" % (where, bus.max_commands))]
-    except Exception as e:  # noqa
-        if library_frame(e.__traceback__) is None:
-            raise
-        return [("C09:raised:%s@%s" % (type(e).__name__, library_frame(e.__traceback__)), "%s raised %r" % (where, e))]
     silenced, garbled_loc, garbled = set(), None, False
     if bus.injected:
         q, kind = bus.injected
@@ -609,9 +648,133 @@ def case_bank(case):
     return out
 
 
+# --------------------------------------------------- several sequences in flight ----
+LAST_INTER = [None]     # (id(case), did the sequences really overlap in time) of the most recent interleaved case
+PREP = {"value": prep_value, "bank": prep_bank}
+JUDGE = {"value": judge_value, "bank": judge_bank}
+
+
+def _seq_name(c):
+    if c["kind"] == "value":
+        return "value-read"
+    return "read_all"
+
+
+def _result_tags(oc):
+    """Comparable form of a sequence outcome: exception class, tagged value, or {value key: tagged value}."""
+    if oc[0] == "raised":
+        return ("raised", type(oc[1]).__name__)
+    v = oc[1]
+    if isinstance(v, dict):
+        ck = lib()["cls_key"]
+        return ("returned", {ck.get(k, repr(k)): tag(x) for k, x in v.items()})
+    return ("returned", tag(v))
+
+
+def _identical(a, b):
+    return a[0] == b[0] and (a[0] == "flag" and a[1] == b[1] or a[0] != "flag" and type(a[1]) is type(b[1]) and a[1] == b[1])
+
+
+def _result_diff(got, ref):
+    """None, or a description of how two outcomes of the same sequence differ."""
+    g, r = _result_tags(got), _result_tags(ref)
+    if g[0] != r[0] or g[0] == "raised":
+        return None if g == r else "%s %s instead of %s %s" % (g[0], g[1] if g[0] == "raised" else "normally", r[0],
+                                                                 r[1] if r[0] == "raised" else "normally")
+    g, r = g[1], r[1]
+    if isinstance(r, dict) != isinstance(g, dict):
+        return "returned %r instead of %r" % (g, r)
+    if not isinstance(r, dict):
+        return None if _identical(g, r) else "returned %r instead of %r" % (g[1], r[1])
+    d = []
+    for k in sorted(set(g) | set(r)):
+        if k not in g:
+            d.append("%s absent (alone: %r)" % (k, r[k][1]))
+        elif k not in r:
+            d.append("%s = %r (alone: absent)" % (k, g[k][1]))
+        elif not _identical(g[k], r[k]):
+            d.append("%s = %r (alone: %r)" % (k, g[k][1], r[k][1]))
+    return None if not d else "%d value(s) differ: %s" % (len(d), "; ".join(d[:4]))
+
+
+def _memory(w):
+    return [(u.name, b, list(u.banks[b].contents)) for u in w.units for b in sorted(u.banks)]
+
+
+def case_interleaved(case):
+    """Several read sequences in flight at once, each on its own bus against its own units, advanced command by command
+    in the order given by case['schedule'] (then case['cycle'] repeatedly).  Every sequence must satisfy the
+    single-sequence oracle on its own unit, must return what it returns when it runs alone, and must leave the unit's
+    memory as it does when it runs alone."""
+    subs = case["jobs"]
+    jobs = [PREP[c["kind"]](c) for c in subs]
+    if any(j is None for j in jobs):
+        return []
+    order = []
+    ocs = run_interleaved([(j.bus, j.seq) for j in jobs], expand_schedule(case.get("schedule")),
+                          expand_schedule(case.get("cycle")) or None, order=order)
+    switches = sum(1 for a, b in zip(order, order[1:]) if a != b)
+    LAST_INTER[0] = (id(case), switches > len(jobs) - 1)
+    sched = "schedule %s (index or [index, count]) then %s repeated" % (_short_list(case.get("schedule") or []),
+                                                                     case.get("cycle") or "round-robin")
+    out, seen = [], set()
+
+    def add(sig, msg):
+        if sig not in seen:
+            seen.add(sig)
+            out.append((sig, msg))
+
+    for i, (job, oc) in enumerate(zip(jobs, ocs)):
+        vs = JUDGE[job.kind](job, oc)
+        ref = PREP[job.kind](subs[i])
+        roc = run_alone(ref)
+        rvs = JUDGE[ref.kind](ref, roc)
+        for sig, msg in rvs:                       # not a matter of interleaving: the sequence fails on its own
+            add(sig, msg)
+        alone = set(sig for sig, _ in rvs)
+        why = None
+        if _result_diff(oc, roc):
+            why = _result_diff(oc, roc)
+        elif _memory(job.w) != _memory(ref.w):
+            why = "the unit's memory is left different"
+        elif [v for v in vs if v[0] not in alone]:
+            why = "%s: %s" % [v for v in vs if v[0] not in alone][0]
+        if why:
+            others = sorted(set(_seq_name(c) + (" of the same bank object" if _bankobj(c) == _bankobj(subs[i]) else "")
+                                for k, c in enumerate(subs) if k != i))
+            add("C09:interleaved-sequences-interfere:%s" % _seq_name(subs[i]),
+                "sequence #%d of %d in flight at the same time on separate buses (%s; others: %s): %s - compared with "
+                "the same sequence run alone against the same unit: %s" % (i, len(jobs), sched, ", ".join(others),
+                                                                           job.where, why))
+    LAST_OUTCOME[0] = "outcome:interleaved:" + ("overlapping" if LAST_INTER[0][1] else "sequential")
+    return out
+
+
+def expand_schedule(entries):
+    """Schedule as stored in a case: entries are sequence indices or [index, repeat count] pairs."""
+    out = []
+    for e in entries or ():
+        if isinstance(e, (list, tuple)):
+            out.extend([e[0]] * e[1])
+        else:
+            out.append(e)
+    return out
+
+
+def _bankobj(c):
+    return c["bank"] if c["kind"] == "bank" else all_rows()[c["key"]]["bankobj"]
+
+
+def _short_list(x):
+    x = list(x)
+    return str(x) if len(x) <= 24 else "%s... (%d entries)" % (str(x[:24])[:-1], len(x))
+
+
 def run_case(case):
     if case["kind"] == "value":
         return case_value(case)
+    if case["kind"] == "interleaved":
+        return case_interleaved(case)
     return case_bank(case)
 
 
@@ -619,6 +782,18 @@ def run_case(case):
 def features(case):
     """Classes of a case computed from the case and the reference tables alone."""
     f = []
+    if case["kind"] == "interleaved":
+        subs = case["jobs"]
+        f.append("interleaved:%d-sequences" % len(subs))
+        f.append("interleaved:" + "+".join(sorted(_seq_name(c) for c in subs)))
+        objs = [_bankobj(c) for c in subs]
+        if len(set(objs)) < len(objs):
+            f.append("interleaved:same-bank-object")
+        if len(set("device" if c["addr"] == "device" else "gear" for c in subs)) > 1:
+            f.append("interleaved:gear+device")
+        if any(c["kind"] == "bank" and c["use_latch"] and bankspec(c["bank"])["has_latch"] for c in subs):
+            f.append("interleaved:with-latch")
+        return f
     holes = set(case["holes"])
     if case["kind"] == "value":
         row = all_rows()[case["key"]]
@@ -650,6 +825,9 @@ NONTRIVIAL = ("truncated", "holed", "latch+drift", "fault:silence", "fault:garbl
 
 
 def is_nontrivial(case):
+    if case["kind"] == "interleaved":
+        # known once the case has run: did the sequences overlap in time at all?
+        return LAST_INTER[0] is not None and LAST_INTER[0][0] == id(case) and LAST_INTER[0][1]
     return any(x in NONTRIVIAL for x in features(case))
 
 
@@ -670,6 +848,8 @@ def _runner(res, strip=True):
         res.label(label or case["kind"])
         LAST_OUTCOME[0] = None
         vs = run_case(case)
+        if case["kind"] == "interleaved" and is_nontrivial(case):
+            res.nontrivial()
         if LAST_OUTCOME[0]:
             res.label(LAST_OUTCOME[0])
         for sig, msg in vs:
@@ -763,6 +943,95 @@ def _shard_banks(arg):
     return res
 
 
+def inter_schedules(n, la, quick):
+    """Named (schedule, cycle) pairs for n sequences in flight; la = roughly the number of commands of sequence 0."""
+    rr = list(range(n))
+    rev = rr[::-1]
+    out = [("round-robin", [], rr),
+           ("round-robin-reversed", [], rev),
+           ("blocks-of-2", [], [i for i in rr for _ in range(2)]),
+           ("blocks-of-5", [], [i for i in rev for _ in range(5)]),
+           ("head-start-1", [0], rev),
+           ("head-start-3", [[0, 3]], rev),
+           ("head-start-half", [[0, max(1, la // 2)]], rev),
+           ("nested", [[0, max(1, la // 2)]] + [[i, 600] for i in rr[1:]], rr),
+           ("late-start", [[0, max(1, la - 2)]], rev),
+           ("sequential", [[i, 600] for i in rr], rr)]
+    if not quick:
+        out += [("head-start-2", [[0, 2]], rev), ("head-start-5", [[0, 5]], rr),
+                ("blocks-of-3", [], [i for i in rr for _ in range(3)]),
+                ("blocks-of-7", [], [i for i in rr for _ in range(7)]),
+                ("uneven-1-3", [], [0] + [rr[-1]] * 3), ("uneven-3-1", [], [0] * 3 + [rr[-1]]),
+                ("head-start-quarter", [[0, max(1, la // 4)]], rev),
+                ("nested-early", [[0, 4]] + [[i, 600] for i in rr[1:]], rr)]
+    return out
+
+
+def _inter_case(jobs, schedule, cycle):
+    return {"kind": "interleaved", "jobs": jobs, "schedule": schedule, "cycle": cycle}
+
+
+def _shard_inter(arg):
+    """Two or three read sequences of one bank object in flight at once on separate buses, against units with different
+    images / last locations / addressing, for a list of interleaving schedules."""
+    bankobj, seed, quick = arg
+    res = Result()
+    run = _runner(res)
+    spec = bankspec(bankobj)
+    if bankobj not in lib()["banks"]:
+        return res
+    top = spec["last"]
+    mid = max(3, top // 2)
+    base = seed * 29 + spec["bank"] * 3
+    imgs = [["prng", base + 7000 + i] for i in range(3)]
+    shorts = [(seed + spec["bank"] + 5 * i) % 64 for i in range(3)]
+    keys = [r["key"] for r in spec["values"] if r["key"] in lib()["classes"]]
+    n = 0
+    # read_all x read_all of the same bank object
+    latches = ((True, True), (True, False), (False, False)) if quick else ((True, True), (True, False), (False, True), (False, False))
+    for (ua, ub) in latches:
+        for (la_, lb_) in ((top, top), (top, mid), (mid, top), (top, 2)):
+            for name, sched, cyc in inter_schedules(2, la_ + 4, quick):
+                n += 1
+                a = _bank_case(bankobj, ADDRS[n % 3], shorts[0], imgs[0], la_, lock=LOCKS[n % 4], use_latch=ua, drift=ua and n % 2 == 0)
+                b = _bank_case(bankobj, ADDRS[(n + 1 + n // 3) % 3], shorts[n % 2], imgs[1], lb_, lock=LOCKS[(n + 1) % 4], use_latch=ub,
+                               holes=[keys and all_rows()[keys[n % len(keys)]]["locs"][0] or 5] if n % 5 == 0 else [])
+                run(_inter_case([a, b], sched, cyc), "interleaved:read_all+read_all:" + name)
+    # read_all with single-value reads of the same bank in flight, and pairs of single-value reads
+    names = ("round-robin", "head-start-half", "nested", "late-start") if quick else None
+    for ki, key in enumerate(keys):
+        row = all_rows()[key]
+        for si, (name, sched, cyc) in enumerate(inter_schedules(2, top + 4, quick)):
+            if names is not None and name not in names:
+                continue
+            n += 1
+            use_latch = bool((ki + si) % 2)
+            a = _bank_case(bankobj, ADDRS[n % 3], shorts[0], imgs[0], top, lock=LOCKS[n % 4], use_latch=use_latch)
+            v = _value_case(key, ADDRS[(n + 1) % 3], shorts[n % 2], imgs[1], top if n % 3 else max(row["locs"]) - (n % 2),
+                            lock=LOCKS[(n + 2) % 4])
+            jobs, sc, cy = ([a, v], sched, cyc) if n % 2 else ([v, a], [[1 - e[0], e[1]] if isinstance(e, list) else 1 - e for e in sched],
+                                                                [1 - e for e in cyc])
+            run(_inter_case(jobs, sc, cy), "interleaved:read_all+value-read:" + name)
+        other = keys[(ki + 1) % len(keys)]
+        for name, sched, cyc in inter_schedules(2, 3 + row["width"], True)[:6]:
+            n += 1
+            v1 = _value_case(key, ADDRS[n % 3], shorts[0], imgs[0], top, lock=LOCKS[n % 4])
+            v2 = _value_case(key if n % 2 else other, ADDRS[(n + n // 3) % 3], shorts[1], imgs[1], top, lock=LOCKS[(n + 1) % 4])
+            run(_inter_case([v1, v2], sched, cyc), "interleaved:value-read+value-read:" + name)
+    # three in flight
+    for name, sched, cyc in inter_schedules(3, top + 4, quick):
+        for use_latch in (True, False):
+            n += 1
+            a = _bank_case(bankobj, ADDRS[n % 3], shorts[0], imgs[0], top, use_latch=use_latch)
+            b = _bank_case(bankobj, ADDRS[(n + 1) % 3], shorts[1], imgs[1], mid if n % 2 else top, use_latch=not use_latch and n % 3 == 0)
+            c = _value_case(keys[n % len(keys)], ADDRS[(n + 2) % 3], shorts[2], imgs[2], top) if keys and n % 4 else \
+                _bank_case(bankobj, ADDRS[(n + 2) % 3], shorts[2], imgs[2], top, use_latch=use_latch)
+            run(_inter_case([a, b, c], sched, cyc), "interleaved:three:" + name)
+    res.sample(_inter_case([_bank_case(bankobj, "gear", 3, imgs[0], top), _bank_case(bankobj, "device", 4, imgs[1], mid)],
+                           [[0, 5]], [1, 0]), cls="interleaved")
+    return res
+
+
 def _shard_canon(arg):
     """Deterministic demonstration cases: the only place where a confirmed defect is reported from."""
     res = Result()
@@ -813,6 +1082,26 @@ def bank_case_st(draw, banks):
                       draw(st.sampled_from(LOCKS)), draw(st.booleans()), draw(st.booleans()), fault)
 
 
+@st.composite
+def inter_case_st(draw, keys_by_bank, banks):
+    b = draw(st.sampled_from(banks))
+    n = draw(st.sampled_from([2, 2, 2, 3]))
+    jobs = []
+    for i in range(n):
+        bb = b if draw(st.integers(0, 9)) < 8 else draw(st.sampled_from(banks))      # mostly the same bank object
+        if keys_by_bank.get(bb) and draw(st.integers(0, 3)) == 0:
+            jobs.append(draw(value_case_st(keys_by_bank[bb])))
+        else:
+            jobs.append(draw(bank_case_st([bb])))
+        if draw(st.integers(0, 3)):
+            jobs[-1]["fault"] = None          # mostly fault-free
+    sched = draw(st.lists(st.one_of(st.integers(0, n - 1),
+                                    st.tuples(st.integers(0, n - 1), st.integers(1, 40)).map(list),
+                                    st.tuples(st.integers(0, n - 1), st.integers(1, 300)).map(list)), max_size=12))
+    cycle = draw(st.one_of(st.just([]), st.lists(st.integers(0, n - 1), min_size=1, max_size=6)))
+    return _inter_case(jobs, sched, cycle)
+
+
 def _shard_hyp(arg):
     seed, n = arg
     res = Result()
@@ -835,6 +1124,11 @@ def _shard_hyp(arg):
                extra_rounds_budget_s=15.0)
     hyp.search(bank_case_st(banks), filtered, res, max(1, n // 3), seed + 1, ID, nontrivial=is_nontrivial,
                classify=classify, extra_rounds_budget_s=15.0)
+    by_bank = {}
+    for k in keys:
+        by_bank.setdefault(all_rows()[k]["bankobj"], []).append(k)
+    hyp.search(inter_case_st(by_bank, banks), filtered, res, max(1, n // 6), seed + 2, ID, nontrivial=is_nontrivial,
+               classify=classify, extra_rounds_budget_s=15.0)
     return res
 
 
@@ -853,6 +1147,8 @@ def run(ctx):
         else:
             shards.append((_shard_banks, (b, list(range(0, 128)), s, q, 0)))
             shards.append((_shard_banks, (b, list(range(128, NLOC)), s, q, 1)))
+    for b in bank_names():
+        shards.append((_shard_inter, (b, s, q)))
     for k in range(16):
         shards.append((_shard_hyp, (s * 1000 + k, 600 if q else 6000)))
     ctx.pmap(_dispatch, shards)
